@@ -404,7 +404,7 @@ class Check:
         self.workdir = os.path.join(WORK, prop)
         os.makedirs(self.workdir, exist_ok=True)
         for f in os.listdir(self.workdir):
-            if f.startswith("violation-"):
+            if f.startswith("violation-") or f == "all-violations.ndjson":
                 os.remove(os.path.join(self.workdir, f))
 
     # -- TLC bookkeeping
